@@ -117,10 +117,14 @@ func Stop() {
 				}
 			}
 		}()
-		globalArchiver.Client.WaitGroup.Wait()
+		if globalArchiver.Client != nil {
+			globalArchiver.Client.WaitGroup.Wait()
+		}
 		stopLocalWatcher <- struct{}{}
 		logger.Debug("WARC writing finished")
-		globalArchiver.Client.Close()
+		if globalArchiver.Client != nil {
+			globalArchiver.Client.Close()
+		}
 		if globalArchiver.ClientWithProxy != nil {
 			globalArchiver.ClientWithProxy.WaitGroup.Wait()
 			globalArchiver.ClientWithProxy.Close()
